@@ -7,7 +7,7 @@ Central statement: on the guarded vocabulary the model of `_is_instance` *comput
 (`exact_raw : isInstance a v = ok (conforms a v)`, every class table, every nesting depth, every value).  Completeness,
 spelling invariance, invariance under the order of Union members and under the iteration order of set / dict values are
 corollaries.  The guard `Ann.okC` is structural; its complement is the union of the recorded regions
-(`emptyFixedTuple`, `typeOfUnionSubclass`, unresolvable forward references) and of bare / unsupported nodes; top-level
+(`emptyFixedTuple`, unresolvable forward references) and of bare / unsupported nodes; top-level
 string annotations have their own regions (`strAnnDeepSubclass`); values with `_asdict` are the region
 `namedtupleVsPlainClass`.  Each region has a negation witness below.
 -/
@@ -177,10 +177,15 @@ theorem complete_fails_namedtupleVsPlainClass :
 theorem complete_fails_emptyFixedTuple :
     conforms envC (.tuple .typing []) (.tup 5 []) = true ∧
     checkType envC (fun _ _ => .raisedOther) (.tuple .typing []) (.tup 5 []) = .pedErr := by decide
-/-- region `typeOfUnionSubclass`: `bool` is rejected for `Type[Union[int, str]]` (exact membership instead of issubclass) -/
-theorem complete_fails_typeOfUnionSubclass :
-    conforms envC (.typeOf .typing (.union .union [.cls 2, .cls 3])) (.clsObj 12) = true ∧
-    checkType envC (fun _ _ => .raisedOther) (.typeOf .typing (.union .union [.cls 2, .cls 3])) (.clsObj 12) = .reject := by decide
+/-- (was region `typeOfUnionSubclass`, repaired by 570cf77) `Type[Union[..]]` over classes / Any is exact for every class
+    table: a class object is accepted iff it is a subclass of some member -/
+theorem typeOf_union_exact (env : Env) (orc : Nat → Val → Raw) (hw : WfEnv env) (sp : Spell) (usp : USpell) (ms : List Ann) (v : Val)
+    (hms : ms.all classLike = true) (hwf : v.wf env = true) (hp : v.plain = true) :
+    checkType env orc (.typeOf sp (.union usp ms)) v = if conforms env (.typeOf sp (.union usp ms)) v then .accept else .reject :=
+  exact_checkType env orc hw _ v (Or.inl (by simpa [Ann.okC, typeArgOk] using hms)) hwf hp
+/-- … e.g. `bool` for `Type[Union[int, str]]` -/
+example : conforms envC (.typeOf .typing (.union .union [.cls 2, .cls 3])) (.clsObj 12) = true ∧
+    checkType envC (fun _ _ => .raisedOther) (.typeOf .typing (.union .union [.cls 2, .cls 3])) (.clsObj 12) = .accept := by decide
 
 theorem Complete_full_is_false : ¬ Complete_full := by
   intro h
